@@ -57,9 +57,9 @@ CLAIMS = {
         note='Trusted: prelude contracts, Verus/Z3.',
         design='DESIGN.md §4 C14', technique='contract-based deductive verification (Verus)'),
     'C16': dict(
-        text='Deductive proof (Verus) of tag normalisation and marker predicates of the field-map tokeniser; tracker histories are a bounded stand-in only.',
-        note='Trusted: prelude contracts, Verus/Z3.',
-        design='DESIGN.md §4 C16', technique='contract-based deductive verification (Verus)'),
+        text='Deductive proof (Verus) that the field-map tokeniser parse_block4_fields returns exactly the multimap of the documented scan (every marker-delimited field once, under its normalised tag, with its trimmed content and its running position), of tag normalisation against the documented keep-list, and of base-tag extraction, for all UTF-8 inputs. The consumption tracker, the sequential lookup and the sequence splitter (HashMap entry API, iterator/closure chains, sort_by_key) are outside the verifier subset and are NOT covered.',
+        note='Trusted: multimap push/new wrappers (entry().or_default().push), std string search/trim contracts, UTF-8 offset axioms in verus/prelude.rs, Verus/Z3. Stamp monotonicity beyond 65535 fields is not claimed.',
+        design='DESIGN.md §4 C16', technique='contract-based deductive verification (Verus): loop invariant against an accumulator-passing scan specification'),
     'C17': dict(
         text='Deductive proof (Verus) that the MT103/MT202/MT205 reject/return/cover predicates equal one shared code-word specification and that the plugin method selection follows the documented priority.',
         note='Trusted: str::contains contract, Any::downcast_ref assumed, Verus/Z3.',
